@@ -6,6 +6,8 @@ SCAN.visit-once    : the rotate/pop scan of the tracking deque runs len(deque) i
                      of pop() (matched) / rotate(1) (not matched) on the element it inspected ([-1]); so every tracked source is
                      inspected exactly once and the survivors keep their order.
 SCAN.clear-matched : a source's run flag is cleared only on the matched branch, before its record is dropped.
+CONFINE.tracking   : the tracking deque is mutated only from the caller's / the object's own thread: no timer, fabric or writer
+                     thread can reach a function that pops, rotates, appends or clears it (the scans above are unlocked).
 ATOMIC.timer-post  : (open finding) the timer thread's "still running?" test and its post are not one critical section
                      with cancel's clear(): one post may follow a cancel that already returned.
 """
@@ -113,6 +115,23 @@ def check(run, model, tier):
             mcnt = queues.count(g, [n for n, c in clears], start=[m for m, l2 in g.succ[mt] if l2 == 'true'][0])
         ok = mcnt is not None and mcnt[0] >= 1
         run.inst('SCAN.clear-matched', f, 'a matched source is always stopped', ok, 'a matched record can be dropped without clearing its run flag', obligation=True)
+    # ---- CONFINE: the unsynchronised scan is only safe while no other thread of the package touches the tracking deque
+    from sa.context import effects
+    from sa import threads
+    cg = callgraph(model)
+    fx = effects(model)
+    run.rule('CONFINE.tracking', 'no thread root of the package other than the object\'s own thread mutates the tracking deque')
+    n_roots = 0
+    for sf_, root, c_ in threads.spawn_roots(model, cg):
+        if root.name == 'run_event':
+            continue
+        n_roots += 1
+        bad = sorted({'%s: %s' % (f_.qualname, how) for f_, path, how, node in threads.root_writes(model, cg, fx, root) if path.split('.')[0] == 'posted_events_queue'})
+        run.inst('CONFINE.tracking', root, 'thread root %s does not touch the tracking deque' % root.name, not bad,
+                 '' if not bad else ('the thread started in %s can reach %s: cancel_event/cancel_events scan the tracking deque with an unlocked inspect-[-1]-then-pop/rotate loop '
+                                     'that is only correct while nobody else rotates or pops it; a concurrent rotation makes the scan skip the source being cancelled, which then '
+                                     'keeps posting' % (sf_.qualname, bad)), obligation=True)
+    run.floor('thread roots checked for confinement of the tracking deque', n_roots, 4)
     # ---- timer: test-then-post atomicity
     t, sf, sc = timer_runner(model)
     g = cfg_of(t)
